@@ -6,6 +6,11 @@
 (*   stage : the channel's state machine is running a stage (busy) - GetByID (GetSync) waits for the queue   *)
 (*           to drain, i.e. for every earlier event AND its cleanup handler                                   *)
 (*   subLk : pubsub subscribersLk, read-held by the notifier while subscriber callbacks run                   *)
+(*   mapLk : Transport.dtChannelsLk, the adapter's channel map: taken briefly by trackDTChannel (UseStore /   *)
+(*           MaxLinks called by the manager from INSIDE the hook, i.e. under chLk) and by CleanupChannel to   *)
+(*           delete the entry - which releases it BEFORE taking chLk.  CleanupHoldsMap = TRUE is the refuted   *)
+(*           variant (map lock held across dtChannel.cleanup): lock order mapLk -> chLk against the hook's     *)
+(*           chLk -> mapLk; NoMapCycle fails for it (cfg lock-map-neg) and holds for the code's order.         *)
 (* Processes: the graphsync incoming-request hook (with a request / response / cancel message), an API       *)
 (* caller, the network receiver (remote cancel), the FSM (plans events, runs the cleanup handler, which       *)
 (* calls transport.CleanupChannel -> chLk), the notifier with a subscriber that calls back into the API.      *)
@@ -16,12 +21,13 @@ EXTENDS Naturals, Sequences, FiniteSets, TLC
 CONSTANTS HookMsgs,       \* subset of {"update","cancel","new"}: messages the hook may carry
           ApiCalls,       \* subset of {"close","pause","state"}
           RemoteCancel,   \* BOOLEAN: a cancel request may arrive over the network
-          SubCalls        \* subset of {"state","close"}: what the subscriber does inside the callback
+          SubCalls,       \* subset of {"state","close"}: what the subscriber does inside the callback
+          CleanupHoldsMap \* BOOLEAN: refuted variant - CleanupChannel keeps the map lock while it takes the channel lock
 
-VARIABLES chLk, q, busy, hpc, hook, api, net, notif, sub, status
-vars == <<chLk, q, busy, hpc, hook, api, net, notif, sub, status>>
+VARIABLES chLk, mapLk, q, busy, hpc, hook, api, net, notif, sub, status
+vars == <<chLk, mapLk, q, busy, hpc, hook, api, net, notif, sub, status>>
 
-Init == /\ chLk = "free" /\ q = << >> /\ busy = FALSE /\ hpc = "idle"
+Init == /\ chLk = "free" /\ mapLk = "free" /\ q = << >> /\ busy = FALSE /\ hpc = "idle"
         /\ hook = [pc |-> "idle", msg |-> "none"] /\ api = [pc |-> "idle", call |-> "none"]
         /\ net = "idle" /\ notif = 0 /\ sub = [pc |-> "idle", call |-> "none"] /\ status = "live"
 
@@ -30,77 +36,89 @@ Quiet == q = << >> /\ ~busy
 (* ---- graphsync incoming request hook: lock ch.lk, call the manager, unlock ---- *)
 HookStart(m) == /\ hook.pc = "idle" /\ m \in HookMsgs /\ chLk = "free"
                 /\ chLk' = "hook" /\ hook' = [pc |-> "inMgr", msg |-> m]
-                /\ UNCHANGED <<q, busy, hpc, api, net, notif, sub, status>>
+                /\ UNCHANGED <<mapLk, q, busy, hpc, api, net, notif, sub, status>>
 (* update: Send(Pause/Resume) then GetByID (flush) ; new: events then GetByID ; cancel: transport.CleanupChannel (needs ch.lk!) then Cancel *)
 HookSend == /\ hook.pc = "inMgr" /\ hook.msg \in {"update","new"}
+            /\ (hook.msg = "new" => mapLk = "free")          \* ApplyOptions -> UseStore -> trackDTChannel: dtChannelsLk, under chLk
             /\ q' = Append(q, "evt") /\ hook' = [hook EXCEPT !.pc = "flush"]
-            /\ UNCHANGED <<chLk, busy, hpc, api, net, notif, sub, status>>
+            /\ UNCHANGED <<mapLk, chLk, busy, hpc, api, net, notif, sub, status>>
 HookFlush == /\ hook.pc = "flush" /\ Quiet
              /\ hook' = [hook EXCEPT !.pc = "unlock"]
-             /\ UNCHANGED <<chLk, q, busy, hpc, api, net, notif, sub, status>>
+             /\ UNCHANGED <<mapLk, chLk, q, busy, hpc, api, net, notif, sub, status>>
 HookCancelCleanup == /\ hook.pc = "inMgr" /\ hook.msg = "cancel" /\ chLk = "free"     \* never enabled: the hook itself holds chLk
                      /\ hook' = [hook EXCEPT !.pc = "unlock"]
-                     /\ UNCHANGED <<chLk, q, busy, hpc, api, net, notif, sub, status>>
+                     /\ UNCHANGED <<mapLk, chLk, q, busy, hpc, api, net, notif, sub, status>>
 HookUnlock == /\ hook.pc = "unlock" /\ chLk' = "free" /\ hook' = [pc |-> "done", msg |-> hook.msg]
-              /\ UNCHANGED <<q, busy, hpc, api, net, notif, sub, status>>
+              /\ UNCHANGED <<mapLk, q, busy, hpc, api, net, notif, sub, status>>
 
 (* ---- API caller ---- *)
 ApiStart(c) == /\ api.pc = "idle" /\ c \in ApiCalls /\ api' = [pc |-> "flush", call |-> c]
-               /\ UNCHANGED <<chLk, q, busy, hpc, hook, net, notif, sub, status>>
+               /\ UNCHANGED <<mapLk, chLk, q, busy, hpc, hook, net, notif, sub, status>>
 ApiFlush == /\ api.pc = "flush" /\ Quiet            \* GetByID at the start of Close / ChannelState
             /\ api' = [api EXCEPT !.pc = IF api.call = "state" THEN "done" ELSE "lock"]
-            /\ UNCHANGED <<chLk, q, busy, hpc, hook, net, notif, sub, status>>
+            /\ UNCHANGED <<mapLk, chLk, q, busy, hpc, hook, net, notif, sub, status>>
 ApiLock == /\ api.pc = "lock" /\ chLk = "free" /\ chLk' = "api" /\ api' = [api EXCEPT !.pc = "unlock"]
-           /\ UNCHANGED <<q, busy, hpc, hook, net, notif, sub, status>>
+           /\ UNCHANGED <<mapLk, q, busy, hpc, hook, net, notif, sub, status>>
 ApiUnlock == /\ api.pc = "unlock" /\ chLk' = "free"
              /\ q' = IF api.call = "close" THEN Append(q, "cancel") ELSE Append(q, "evt")
              /\ api' = [api EXCEPT !.pc = "done"]
-             /\ UNCHANGED <<busy, hpc, hook, net, notif, sub, status>>
+             /\ UNCHANGED <<mapLk, busy, hpc, hook, net, notif, sub, status>>
 
 (* ---- network receiver: cancel request -> transport.CleanupChannel (ch.lk) -> Cancel event ---- *)
-NetCancelLock == /\ RemoteCancel /\ net = "idle" /\ chLk = "free" /\ chLk' = "net" /\ net' = "held"
-                 /\ UNCHANGED <<q, busy, hpc, hook, api, notif, sub, status>>
+NetCancelMap == /\ RemoteCancel /\ net = "idle" /\ mapLk = "free" /\ net' = "map"       \* CleanupChannel: delete the map entry under dtChannelsLk
+                /\ mapLk' = IF CleanupHoldsMap THEN "net" ELSE "free"
+                /\ UNCHANGED <<chLk, q, busy, hpc, hook, api, notif, sub, status>>
+NetCancelLock == /\ net = "map" /\ chLk = "free" /\ chLk' = "net" /\ net' = "held"
+                 /\ UNCHANGED <<mapLk, q, busy, hpc, hook, api, notif, sub, status>>
 NetCancelSend == /\ net = "held" /\ chLk' = "free" /\ q' = Append(q, "cancel") /\ net' = "done"
+                 /\ mapLk' = IF mapLk = "net" THEN "free" ELSE mapLk
                  /\ UNCHANGED <<busy, hpc, hook, api, notif, sub, status>>
 
 (* ---- the channel's state machine ---- *)
 Plan == /\ ~busy /\ q # << >>
         /\ LET e == Head(q) IN
              /\ q' = Tail(q)
-             /\ IF status = "done" THEN UNCHANGED <<busy, hpc, status, notif>>
+             /\ IF status = "done" THEN UNCHANGED <<mapLk, busy, hpc, status, notif>>
                 ELSE /\ notif' = notif + 1
                      /\ IF e = "cancel" THEN busy' = TRUE /\ hpc' = "cleanup" /\ status' = "cleaning"
-                        ELSE IF e = "cc" THEN status' = "done" /\ UNCHANGED <<busy, hpc>>
-                        ELSE UNCHANGED <<busy, hpc, status>>
-        /\ UNCHANGED <<chLk, hook, api, net, sub>>
-HandlerCleanup == /\ hpc = "cleanup" /\ chLk = "free" /\ chLk' = "fsm" /\ hpc' = "held"     \* env.CleanupChannel -> transport.CleanupChannel -> ch.lk
-                  /\ UNCHANGED <<q, busy, hook, api, net, notif, sub, status>>
+                        ELSE IF e = "cc" THEN status' = "done" /\ UNCHANGED <<mapLk, busy, hpc>>
+                        ELSE UNCHANGED <<mapLk, busy, hpc, status>>
+        /\ UNCHANGED <<mapLk, chLk, hook, api, net, sub>>
+HandlerMap == /\ hpc = "cleanup" /\ mapLk = "free" /\ hpc' = "map"                          \* env.CleanupChannel -> transport.CleanupChannel: map entry
+              /\ mapLk' = IF CleanupHoldsMap THEN "fsm" ELSE "free"
+              /\ UNCHANGED <<chLk, q, busy, hook, api, net, notif, sub, status>>
+HandlerCleanup == /\ hpc = "map" /\ chLk = "free" /\ chLk' = "fsm" /\ hpc' = "held"         \* ... then dtChannel.cleanup -> ch.lk
+                  /\ UNCHANGED <<mapLk, q, busy, hook, api, net, notif, sub, status>>
 HandlerDone == /\ hpc = "held" /\ chLk' = "free" /\ hpc' = "idle" /\ busy' = FALSE /\ q' = Append(q, "cc")
+               /\ mapLk' = IF mapLk = "fsm" THEN "free" ELSE mapLk
                /\ UNCHANGED <<hook, api, net, notif, sub, status>>
 
 (* ---- notifier + a subscriber that calls back into the API from inside the callback ---- *)
 SubStart(c) == /\ notif > 0 /\ sub.pc = "idle" /\ c \in SubCalls /\ notif' = notif - 1 /\ sub' = [pc |-> "flush", call |-> c]
-               /\ UNCHANGED <<chLk, q, busy, hpc, hook, api, net, status>>
-SubSkip == /\ notif > 0 /\ sub.pc = "idle" /\ notif' = notif - 1 /\ UNCHANGED <<chLk, q, busy, hpc, hook, api, net, sub, status>>
+               /\ UNCHANGED <<mapLk, chLk, q, busy, hpc, hook, api, net, status>>
+SubSkip == /\ notif > 0 /\ sub.pc = "idle" /\ notif' = notif - 1 /\ UNCHANGED <<mapLk, chLk, q, busy, hpc, hook, api, net, sub, status>>
 SubFlush == /\ sub.pc = "flush" /\ Quiet
             /\ sub' = [sub EXCEPT !.pc = IF sub.call = "state" THEN "idle" ELSE "lock"]
-            /\ UNCHANGED <<chLk, q, busy, hpc, hook, api, net, notif, status>>
+            /\ UNCHANGED <<mapLk, chLk, q, busy, hpc, hook, api, net, notif, status>>
 SubLock == /\ sub.pc = "lock" /\ chLk = "free" /\ chLk' = "sub" /\ sub' = [sub EXCEPT !.pc = "unlock"]
-           /\ UNCHANGED <<q, busy, hpc, hook, api, net, notif, status>>
+           /\ UNCHANGED <<mapLk, q, busy, hpc, hook, api, net, notif, status>>
 SubUnlock == /\ sub.pc = "unlock" /\ chLk' = "free" /\ q' = Append(q, "cancel") /\ sub' = [pc |-> "idle", call |-> "none"]
-             /\ UNCHANGED <<busy, hpc, hook, api, net, notif, status>>
+             /\ UNCHANGED <<mapLk, busy, hpc, hook, api, net, notif, status>>
 
 Next == \/ \E m \in HookMsgs : HookStart(m)
         \/ HookSend \/ HookFlush \/ HookCancelCleanup \/ HookUnlock
         \/ \E c \in ApiCalls : ApiStart(c)
         \/ ApiFlush \/ ApiLock \/ ApiUnlock
-        \/ NetCancelLock \/ NetCancelSend
-        \/ Plan \/ HandlerCleanup \/ HandlerDone
+        \/ NetCancelMap \/ NetCancelLock \/ NetCancelSend
+        \/ Plan \/ HandlerMap \/ HandlerCleanup \/ HandlerDone
         \/ \E c \in SubCalls : SubStart(c)
         \/ SubSkip \/ SubFlush \/ SubLock \/ SubUnlock
 Spec == Init /\ [][Next]_vars /\ WF_vars(Next)
 
-Started == hook.pc \notin {"idle","done"} \/ api.pc \notin {"idle","done"} \/ net = "held" \/ sub.pc # "idle" \/ busy
+(* lock-order cycle between the channel lock and the map lock: the hook (holding chLk) needs mapLk while a cleanup  *)
+(* (holding mapLk) needs chLk.  Unreachable with the code's order (CleanupChannel drops mapLk first).              *)
+NoMapCycle == ~(hook.pc = "inMgr" /\ hook.msg = "new" /\ chLk = "hook" /\ mapLk # "free")
+Started == hook.pc \notin {"idle","done"} \/ api.pc \notin {"idle","done"} \/ net \in {"map", "held"} \/ sub.pc # "idle" \/ busy
 (* a state in which some call has started and nothing can move = a deadlock of the library *)
 NoStuckCall == Started => ENABLED Next
 EveryCallReturns == /\ (hook.pc = "inMgr") ~> (hook.pc = "done")
